@@ -29,8 +29,11 @@ func rulesC14(c *Ctx, r *Report) {
 	}
 	// ---- T-CODON
 	where := "sequtil.codonToAmino"
-	t := findLitTable(p, "codonToAmino")
-	g := c.global("sequtil", "codonToAmino")
+	g := c.tableIn(c.fn("sequtil", "Translate"), 1)
+	var t *litTable
+	if g != nil {
+		t = findLitTable(p, g.Name())
+	}
 	codon := map[[3]int64]int64{}
 	if t == nil || g == nil || t.err != "" {
 		why := "variable not found"
@@ -70,8 +73,11 @@ func rulesC14(c *Ctx, r *Report) {
 
 	// ---- T-AMINO + VSA-AN
 	where = "sequtil.aminoToName"
-	at := findLitTable(p, "aminoToName")
-	ag := c.global("sequtil", "aminoToName")
+	ag := c.tableIn(c.fn("sequtil", "AminoName"), 1)
+	var at *litTable
+	if ag != nil {
+		at = findLitTable(p, ag.Name())
+	}
 	aaConst, _ := p.Types.Scope().Lookup("AminoAcids").(*types.Const)
 	if at == nil || ag == nil || at.err != "" || aaConst == nil {
 		r.undecided("T-AMINO", where, "literal", "", "aminoToName literal or AminoAcids constant not found")
